@@ -34,6 +34,7 @@ class PackIntMod:
             return [(val & (1 << i)) >> i for i in range((self.mod-1).bit_length())]
         
     def unpack(self, bits, pos):
+        if self.bitlen() == 0: return 0  # modulus 1: the only value, encoded in no bits
         if isinstance(bits[pos],LinComb) or isinstance(bits[pos],LinCombBool):
             # lincomb in: boundary checking
             ret = LinComb.from_bits(bits[pos:pos+self.bitlen()])
